@@ -19,16 +19,63 @@
 (* is answered by the self-presence it waits for, otherwise the client joins (again) *)
 (* and the room admits it: an exchange that must succeed, so that a serve loop which *)
 (* stopped after the earlier reply shows.                                            *)
+(* PAYLOAD CONTENT: every (un)available presence carries a muc#user payload: status  *)
+(* codes (st.codes, document order) and an item variant (st.item, see PlDoc below).  *)
+(* By default the plain one (DefCodes, item "-"); at most MaxPl presences of a script *)
+(* - the occupant's own or, PlOther, another occupant's (a noise step) - carry one of *)
+(* the payloads PlAv (available) / PlUn (unavailable) instead; OnlyPl: only scripts   *)
+(* with such a presence are written.                                                 *)
+(* CHANNELS: a member of ERooms names a channel = the occupant address it joins as;  *)
+(* "r1b" is a second channel in room r1 under the nickname me2 (RoomOf / NickOf).     *)
+(* AUX: at most MaxAux steps are Subject / Invite calls on a channel the application *)
+(* holds, made while no call or a Leave is pending on it (they use up a call id and  *)
+(* are never answered); OnlyAux: only scripts with such a call are written.          *)
+(* RENICK: at most MaxRenick calls are "renick" = Channel.Join with the Nick option  *)
+(* on a channel that has an occupant address (asking for the other nickname, me2);   *)
+(* from then on the room may also send the presences of that other address (granted, *)
+(* or somebody else's); the room answers the call with the self-presence of either   *)
+(* address, an error, or not at all (cancel).  OnlyRenick: only scripts with one.     *)
 EXTENDS Integers, Sequences, FiniteSets, TLC, Json, SequencesExt
 
-CONSTANTS ERooms, MaxLen, MaxCalls, MaxNoise, InvFull, MaxSplit, Cuts, MaxShape, ErShapes, OnlyShaped, WithTail, OutFile
+CONSTANTS ERooms, MaxLen, MaxCalls, MaxNoise, InvFull, MaxSplit, Cuts, MaxShape, ErShapes, OnlyShaped, WithTail,
+          MaxPl, PlSet, PlOther, OnlyPl, MaxAux, OnlyAux, MaxRenick, OnlyRenick, OutFile
 
-NoSt == [ty |-> "-", room |-> "-", nick |-> "-", call |-> "-", n |-> 0, lay |-> <<>>, pw |-> FALSE, shape |-> "-"]
+NoSt == [ty |-> "-", room |-> "-", nick |-> "-", call |-> "-", n |-> 0, lay |-> <<>>, pw |-> FALSE, shape |-> "-",
+         codes |-> <<>>, item |-> "-"]
+(* the plain payload: the occupant's own presence says so (110); the presence of the other nick the scripts *)
+(* use claims to be the user's own under a nick the room modified (110, 210)                                 *)
+DefCodes(ty, nk) == CASE ty = "av" /\ nk = "ot" -> <<110, 210>> [] ty \in {"av", "un"} -> <<110>> [] OTHER -> <<>>
 St(ty, r, nk, c, k) == [ty |-> ty, room |-> r, nick |-> nk, call |-> c, n |-> k,
                         lay |-> IF ty = "inv" THEN <<"u">> ELSE <<>>, pw |-> FALSE,
-                        shape |-> IF ty = "er" THEN "wf" ELSE "-"]
-Er(r, c, sh) == [St("er", r, "me", c, 0) EXCEPT !.shape = sh]
-Inv(lay, k, pw) == [ty |-> "inv", room |-> "r1", nick |-> "-", call |-> "-", n |-> k, lay |-> lay, pw |-> pw, shape |-> "-"]
+                        shape |-> IF ty = "er" THEN "wf" ELSE "-",
+                        codes |-> DefCodes(ty, nk), item |-> "-"]
+RoomOf(r) == IF r = "r1b" THEN "r1" ELSE r
+NickOf(r) == IF r = "r1b" THEN "me2" ELSE "me"
+Er(r, c, sh) == [St("er", RoomOf(r), NickOf(r), c, 0) EXCEPT !.shape = sh]
+Inv(lay, k, pw) == [ty |-> "inv", room |-> "r1", nick |-> "-", call |-> "-", n |-> k, lay |-> lay, pw |-> pw, shape |-> "-",
+                    codes |-> <<>>, item |-> "-"]
+(* PlDoc.  Item variants (rendered by harness/cmd/muc presX): "-" <item affiliation=member role=participant|none/> *)
+(* before the codes; "sfirst" the codes first; "noitem" codes only; "nick" the item names a (new) nickname;     *)
+(* "jid" / "jidoth" the item shows the real address: this session's / another resource of the same account;     *)
+(* "actor" affiliation none, <actor nick/> and <reason/> inside; "outcast" affiliation outcast, <actor jid/>,   *)
+(* reason; "rolekept" role participant also on an unavailable presence; "visitor" / "owner" other roles and     *)
+(* affiliations; "destroy" item none / none and a <destroy jid><reason/></destroy> sibling.                     *)
+(* PlSet: set of [ty, codes, item] (ty: the presence type the payload goes with).                               *)
+Pl(ty, codes, item) == [ty |-> ty, codes |-> codes, item |-> item]
+PlUnAll == {Pl("un", <<>>, "-"), Pl("un", <<303>>, "nick"), Pl("un", <<303, 110>>, "nick"), Pl("un", <<110, 303>>, "nick"),
+            Pl("un", <<303, 110>>, "sfirst"), Pl("un", <<307>>, "actor"), Pl("un", <<307, 110>>, "actor"),
+            Pl("un", <<110, 307, 333>>, "actor"), Pl("un", <<301, 110>>, "outcast"), Pl("un", <<321, 110>>, "actor"),
+            Pl("un", <<322, 110>>, "-"), Pl("un", <<332, 110>>, "-"), Pl("un", <<>>, "destroy"), Pl("un", <<110>>, "destroy"),
+            Pl("un", <<110>>, "jid"), Pl("un", <<110>>, "jidoth"), Pl("un", <<110>>, "rolekept"), Pl("un", <<110>>, "noitem"),
+            Pl("un", <<110>>, "sfirst")}
+PlAvAll == {Pl("av", <<>>, "-"), Pl("av", <<110>>, "-"), Pl("av", <<110, 210>>, "-"), Pl("av", <<110, 201>>, "owner"),
+            Pl("av", <<110, 100>>, "jid"), Pl("av", <<100, 110, 170, 210>>, "sfirst"), Pl("av", <<110, 170>>, "-"),
+            Pl("av", <<110>>, "visitor"), Pl("av", <<110>>, "nick"), Pl("av", <<110>>, "actor"), Pl("av", <<110>>, "noitem"),
+            Pl("av", <<110>>, "jidoth"), Pl("av", <<>>, "owner")}
+PlAll == PlUnAll \cup PlAvAll
+(* the most telling ones (quick tiers of other emissions) *)
+PlFew == {Pl("un", <<303, 110>>, "nick"), Pl("un", <<307, 110>>, "actor"), Pl("un", <<>>, "destroy"), Pl("un", <<110>>, "rolekept"),
+          Pl("av", <<>>, "-"), Pl("av", <<110, 201>>, "owner"), Pl("av", <<110>>, "nick")}
 CallStep(op, r) == [op |-> op, room |-> r, call |-> "-", st |-> NoSt, cut |-> 0]
 CancelStep(c) == [op |-> "cancel", room |-> "-", call |-> c, st |-> NoSt, cut |-> 0]
 SendStep(s) == [op |-> "send", room |-> "-", call |-> "-", st |-> s, cut |-> 0]
@@ -55,7 +102,7 @@ Noise == IF InvFull THEN InvAlphabet \cup {St("oth", "-", "-", "-", 0)} ELSE Bas
 (* ([c, k]) or None; ers: calls already answered with an error; noise: noise steps so far    *)
 NoCall == [c |-> "-", k |-> "-"]
 S0 == [n |-> 0, has |-> {}, open |-> [r \in ERooms |-> NoCall], ers |-> {}, roomOf |-> <<>>, noise |-> 0,
-       partial |-> FALSE, nsplit |-> 0, pend |-> [r \in ERooms |-> "-"], nshape |-> 0]
+       partial |-> FALSE, nsplit |-> 0, pend |-> [r \in ERooms |-> "-"], nshape |-> 0, npl |-> 0, naux |-> 0, nren |-> 0]
 
 Close(ss, r) == [ss EXCEPT !.open[r] = NoCall]
 (* calls and cancellations *)
@@ -65,13 +112,43 @@ CallSteps(ss) ==
                                             !.roomOf = Append(@, r)]>>
                  : k \in (IF r \in ss.has THEN {"rejoin", "leave"} ELSE {"join"})}
          ELSE {} : r \in ERooms}
+  \* Join with the Nick option on a channel that has an occupant address
+  \cup UNION {IF r \in ss.has /\ ss.open[r] = NoCall /\ ss.n < MaxCalls /\ ss.nren < MaxRenick
+              THEN {<<CallStep("renick", r), [ss EXCEPT !.n = @ + 1, !.open[r] = [c |-> Cid(ss.n + 1), k |-> "renick"],
+                                                       !.roomOf = Append(@, r), !.nren = @ + 1]>>}
+              ELSE {} : r \in ERooms}
+  \* Subject / Invite on a channel the application holds, while nothing or a Leave is pending on it
+  \cup UNION {IF r \in ss.has /\ ss.open[r].k \in {"-", "leave"} /\ ss.n < MaxCalls /\ ss.naux < MaxAux
+              THEN {<<CallStep(k, r), [ss EXCEPT !.n = @ + 1, !.roomOf = Append(@, r), !.ers = @ \cup {ss.n + 1}, !.naux = @ + 1]>>
+                      : k \in {"subject", "invite"}}
+              ELSE {} : r \in ERooms}
   \* cancellation of the open call
   \cup {<<CancelStep(ss.open[r].c), Close(ss, r)>> : r \in {r \in ERooms : ss.open[r] # NoCall}}
 (* the stanzas the room may send next (in one piece) *)
+(* the presence of type ty from the occupant address of channel r (nk = "me") or from another occupant *)
+(* of its room (nk = "ot"): the plain one, or with one of the payloads of PlSet                          *)
+WithPl(s, p) == [s EXCEPT !.codes = p.codes, !.item = p.item]
+OtherNick(n) == IF n = "me" THEN "me2" ELSE "me"
+Plain(ty, r, nk) == St(ty, RoomOf(r), CASE nk = "me" -> NickOf(r) [] nk = "alt" -> OtherNick(NickOf(r)) [] OTHER -> nk, "-", 0)
+PresOf(ss, ty, r, nk) ==
+  {<<Plain(ty, r, nk), ss>>}
+  \cup (IF ss.npl < MaxPl /\ r \in ss.has     \* (before the first call on r its presences are those of a room never joined)
+        THEN {<<WithPl(Plain(ty, r, nk), p), [ss EXCEPT !.npl = @ + 1]>>
+                : p \in {p \in PlSet : p.ty = ty /\ (p.codes # DefCodes(ty, nk) \/ p.item # "-")}}
+        ELSE {})
 Sends(ss) ==
   \* self-presences
-  {<<SendStep(St("av", r, "me", "-", 0)), IF ss.open[r].k \in {"join", "rejoin"} THEN Close(ss, r) ELSE ss>> : r \in ERooms}
-  \cup {<<SendStep(St("un", r, "me", "-", 0)), IF ss.open[r].k = "leave" THEN Close(ss, r) ELSE ss>> : r \in ERooms}
+  UNION {{<<SendStep(x[1]), IF ss.open[r].k \in {"join", "rejoin", "renick"} THEN Close(x[2], r) ELSE x[2]>> : x \in PresOf(ss, "av", r, "me")} : r \in ERooms}
+  \* once the other nickname has been asked for: the presences of that address
+  \cup (IF ss.nren > 0
+        THEN UNION {{<<SendStep(Plain("av", r, "alt")), IF ss.open[r].k = "renick" THEN Close(ss, r) ELSE ss>>,
+                     <<SendStep(Plain("un", r, "alt")), ss>>} : r \in ERooms}
+        ELSE {})
+  \cup UNION {{<<SendStep(x[1]), IF ss.open[r].k = "leave" THEN Close(x[2], r) ELSE x[2]>> : x \in PresOf(ss, "un", r, "me")} : r \in ERooms}
+  \* another occupant's presences with a payload out of PlSet (the plain ones are noise steps)
+  \cup (IF PlOther /\ ss.npl < MaxPl
+        THEN {<<SendStep(x[1]), x[2]>> : x \in UNION {PresOf(ss, ty, r, "ot") \ {<<Plain(ty, r, "ot"), ss>>} : ty \in {"av", "un"}, r \in ERooms}}
+        ELSE {})
   \* error answers
   \cup {<<SendStep(Er(ss.roomOf[i], Cid(i), sh)),
           [(IF ss.open[ss.roomOf[i]].c = Cid(i) THEN Close(ss, ss.roomOf[i]) ELSE ss)
@@ -100,13 +177,13 @@ TailRoom == CHOOSE r \in ERooms : TRUE
 TailOf(ss) ==
   LET r == TailRoom IN
   IF ss.open[r] # NoCall
-  THEN <<SendStep(St(IF ss.open[r].k = "leave" THEN "un" ELSE "av", r, "me", "-", 0))>>
-  ELSE <<CallStep(IF r \in ss.has THEN "rejoin" ELSE "join", r), SendStep(St("av", r, "me", "-", 0))>>
+  THEN <<SendStep(Plain(IF ss.open[r].k = "leave" THEN "un" ELSE "av", r, "me"))>>
+  ELSE <<CallStep(IF r \in ss.has THEN "rejoin" ELSE "join", r), SendStep(Plain("av", r, "me"))>>
 
 (* every non-empty script in which no stanza is left half delivered *)
 RECURSIVE Gen(_, _, _)
 Gen(seq, ss, k) ==
-  (IF seq = <<>> \/ ss.partial \/ (OnlyShaped /\ ss.nshape = 0) THEN {}
+  (IF seq = <<>> \/ ss.partial \/ (OnlyShaped /\ ss.nshape = 0) \/ (OnlyPl /\ ss.npl = 0) \/ (OnlyAux /\ ss.naux = 0) \/ (OnlyRenick /\ ss.nren = 0) THEN {}
    ELSE {seq} \cup (IF WithTail THEN {seq \o TailOf(ss)} ELSE {}))
   \cup (IF k = 0 THEN {} ELSE UNION {Gen(Append(seq, x[1]), x[2], k - 1) : x \in Ext(ss)})
 
